@@ -38,6 +38,16 @@ CLAIMED = {
  'C16': dict(level='model_checking', ref='5/C16',
    text='From an arbitrary invariant state (so the failing evaluation index is arbitrary) the objective raises on the next evaluation inside the real Process.Solve, for seven exception types incl. KeyboardInterrupt, SystemExit, GeneratorExit, a user BaseException and argument-less exceptions: Solve returns, trials/best/value are those of the completed trials, the record keeps its ordering and fidelity clauses and omits the failed point, the failure is printed; plus public-interface scenarios failing on evaluation 2, 3 or later with arbitrary values.',
    note='z3; symex proxies (no steering exceptions: Solve swallows BaseException); one fault per run'),
+
+ 'C05': dict(level='model_checking', ref='5/C05',
+   text='(BOX) the real Evolvent.GetImage with symbolic bounds lower<upper, all paths of a coarse curve, N<=3 (thorough 4): image inside the box; (RUN) public-interface scenarios with arbitrary objective values: every point handed to the objective in the global phase lies in the box; (REF) the real DoLocalRefinement / Solve(refineSolution=True) with scipy.optimize.minimize replaced by a contract stub that evaluates arbitrary points inside `bounds` iff bounds are passed: every evaluation and the returned point inside the box, never worse than the best global trial, reported value = objective at the reported point, local trial count; includes monotone objectives whose optimum sits on a face of the box.',
+   note='z3; symex proxies; the minimize contract (scipy honours bounds) is assumed and tied to real scipy only by the native replays; floats as reals'),
+ 'C12': dict(level='model_checking', ref='5/C12',
+   text='Self-composition in one solver query: the main solver (reachable prefix + arbitrary values) alone versus with another live Solver (same dimension/density on a different box, or another dimension) created alongside and iterated under lock-step / other-first / block schedules, also with both solvers refining under the minimize stub: same trial sequence, record and result, Solutions kept from Solve still report their optimum afterwards, and the other solver makes the trials it makes alone.',
+   note='z3 QF_NRA; symex proxies; two solvers, bounded run lengths; refinement through the contract stub'),
+ 'C13': dict(level='model_checking', ref='5/C13',
+   text='Self-composition: a listener-free reference versus solvers carrying a recording listener derived from the base class overriding each of the 16 subsets of callbacks, and the shipped console listener in its three modes with stdout captured (symbolic numbers print as term tags, so report contents are compared exactly): notification count, order and contents, OnMethodStop solution, non-interference on trials and result, console report = solution fields; batches then Solve, N in {1,2}, with and without refinement (stub). Painting listeners are NOT covered (matplotlib/sklearn cannot be executed symbolically).',
+   note='z3; symex proxies; print stub; minimize stub; the four painting listeners are outside the claim'),
 }
 checks = []
 for p in props:
